@@ -4,6 +4,7 @@
  * Independent external facts are checked too (handlers only for the event in progress, first observable action
  * of events in acceptance order, accepted == processed at quiescence, nothing refused ever processed). */
 #include "common.h"
+#include "refmodel.h"
 
 const char *CHK_RULE = "one case = one history of 50..5000 operations (trigger bursts past capacity, queries before every trigger, service bursts, command lines, holds, "
                        "write back-pressure) against a table of event commands that format and flush / call multi-step handlers / fail at once; non-trivial = the ring wrapped "
@@ -37,13 +38,24 @@ static void on_phase(int code)
                 last_started = e.id; cur = e; inprog = true; saw_action_for_cur = false; cur_terminal_returned = false; cur_var_failed = false; script_left = (int)pr_n(&HP, 3);
                 CNT("events_dequeued");
         } else if (code == 4) {
-                if (inprog) { inprog = false; processed++; if (!saw_action_for_cur) { failed_fast++; CNT("events_failed_at_once"); } CNT("events_finished"); }
+                if (inprog) {
+                        inprog = false; processed++;
+                        if (!saw_action_for_cur) {
+                                failed_fast++; CNT("events_failed_at_once");
+                                /* "processed" means something: an event of +AUTO (a variable, no handlers, text that fits) prints its line, an event of +H / +H2 reaches their handler - whatever the flags of those commands say about command lines */
+                                char t[200]; int n = cur.type == CAT_CMD_TYPE_READ ? ref_fmt_read(W.cmd[cur.cmd], t, sizeof t) : ref_fmt_test(W.cmd[cur.cmd], "\r\n", t, sizeof t);
+                                if ((cur.cmd == 0 || cur.cmd == 1 || cur.cmd == 4) && n >= 0 && (size_t)n + 1 <= W.capU) viol("C13", "event-dropped", "accepted event id %ld (cmd#%d \"%s\", type %d) was taken from the queue and finished without a callback or an output byte", cur.id, cur.cmd, W.cmd[cur.cmd]->name, cur.type);
+                        }
+                        CNT("events_finished");
+                }
         }
 }
 static cat_return_state policy(struct hcall *h)
 {
         if (h->fsm == FSM_A) {
                 if (h->kind == K_RUN && h->ci == 5) { if (pr_pct(&HP, 50)) { hold_active = true; return CAT_RETURN_STATE_HOLD; } }
+                /* a command that waits for its own notification: "AT+H?" asks again (NEXT) as long as a READ event of +H is pending - events are processed independently of command traffic, so this ends */
+                if (h->kind == K_READ && h->ci == 1 && cat_is_unsolicited_event_buffered(W.at, h->cmd, CAT_CMD_TYPE_READ) == CAT_STATUS_BUSY) { CNT("command_polls_for_its_own_event"); return CAT_RETURN_STATE_NEXT; }
                 return CAT_RETURN_STATE_DATA_OK;
         }
         saw_action_for_cur = true;
@@ -118,12 +130,14 @@ void chk_run_case(uint64_t seed, long c, bool is_sweep)
         struct cat_command *arr = w_group(NCMD, false);
         static uint8_t dummy;
         (void)dummy;
-        arr[0].name = xstr("+AUTO"); { struct cat_variable *v = w_vars(&arr[0], 1); v->type = CAT_VAR_UINT_DEC; v->name = "X"; uint8_t *d = w_vdata(v, 1); *d = 9; v->read = hv_read; }
+        arr[0].name = xstr("+AUTO"); { struct cat_variable *v = w_vars(&arr[0], 2); v[0].type = CAT_VAR_UINT_DEC; v[0].name = "X"; uint8_t *d = w_vdata(&v[0], 1); *d = 9; v[0].read = hv_read; v[1].type = CAT_VAR_UINT_DEC; uint8_t *e = w_vdata(&v[1], 1); *e = 4; }
         arr[1].name = xstr("+H"); arr[1].read = h_read; arr[1].test = h_test; { struct cat_variable *v = w_vars(&arr[1], 1); v->type = CAT_VAR_UINT_DEC; uint8_t *d = w_vdata(v, 2); d[0] = 1; v->read = hv_read; }
         arr[2].name = xstr("+FAIL");                                                      /* READ fails at once, TEST prints "+FAIL=" */
         arr[3].name = xstr("+LONGNAMETHATDOESNOTFITINTHEEVENTBUFFERATALL0123456789"); arr[3].read = h_read;   /* never fits */
         arr[4].name = xstr("+H2"); arr[4].read = h_read; arr[4].test = h_test; arr[4].only_test = chance(50);      /* test-only restricts the request forms of command lines; an event of either type is processed like any other */
         arr[5].name = xstr("+HOLD"); arr[5].run = h_run;
+        arr[0].implicit_write = chance(30);                 /* flags that concern command lines only: an accepted event is processed all the same */
+        arr[1].disable = chance(25); arr[4].disable = chance(25);
         bool shared = chance(50);
         w_buffers(shared ? 64 + rn(2) : 48, shared, 24 + rn(16));
         w_init((int)rn(2));
@@ -139,7 +153,7 @@ void chk_run_case(uint64_t seed, long c, bool is_sweep)
                 if (r < p_trig) { if (chance(40)) check_queries(); do_trigger(); if (chance(30)) { int burst = (int)rn(QCAP + 3); for (int i = 0; i < burst; i++) do_trigger(); } }
                 else if (r < p_trig + 10) check_queries();
                 else if (r < p_trig + 14) { p_write = chance(50) ? 100 : chance(50) ? 0 : 30; if (p_write == 100) sch_eager(&WS); else sch_bern(&WS, p_write, rnd()); }
-                else if (r < p_trig + 17 && INPOS >= INLEN) { in_reset(); in_puts(chance(50) ? "AT+H?\n" : chance(50) ? "AT+HOLD\r\n" : "AT+AUTO=?\n"); }
+                else if (r < p_trig + 17 && INPOS >= INLEN) { in_reset(); in_puts(chance(40) ? "AT+H?\n" : chance(40) ? "AT+HOLD\r\n" : chance(50) ? "AT+AUTO=?\n" : "AT+H=000000000000000000000000000000000000000007\n"); }      /* the last one: the command machine's cursor moves far past the size of a small event buffer */
                 else if (r < p_trig + 19 && hold_active) { if (cat_hold_exit(W.at, CAT_STATUS_OK) == CAT_STATUS_OK) hold_active = false; }
                 else { int k = 1 + (int)rn(20); for (int i = 0; i < k; i++) { svc(); if (chance(10)) check_queries(); } }
         }
@@ -151,7 +165,11 @@ void chk_run_case(uint64_t seed, long c, bool is_sweep)
                 cat_status s = svc();
                 if (hold_active) { (void)cat_hold_exit(W.at, CAT_STATUS_OK); hold_active = false; }
                 if (s == CAT_STATUS_OK && INPOS >= INLEN) break;
-                if (++guard > bound) { inconclusive("no quiescence within the bound (C15's subject)"); return; }
+                if (++guard > bound) {
+                        if (rcount != 0 || inprog) viol("C13", "events-left", "%d accepted event(s) waiting / %d in progress are not processed although the output accepts every byte (%ld service calls)", rcount, inprog, bound);
+                        else inconclusive("no quiescence within the bound (C15's subject)");
+                        return;
+                }
         }
         check_queries();
         if (rcount != 0 || inprog) viol("C13", "events-left", "%d event(s) waiting / %d in progress at quiescence", rcount, inprog);
